@@ -332,8 +332,8 @@ pub fn property() -> Property {
             prop_sub(
                 "histories",
                 "limits 1..4, 1..3 runners (clones share the limit), histories of get_token / poll / drop-pending-request / drop-token / drop-token-while-unwinding / run-to-completion / clone operations; after every operation: live tokens <= limit, a first poll with a free slot and nobody queued completes immediately, free slot and queued requests implies one of them has been woken; final drain: every request obtains a token as slots are freed; non-trivial = some request had to wait and more tokens than the limit were handed out over time; distinct = hash of the case",
-                5_000,
-                300_000,
+                60_000,
+                2_000_000,
                 |_| boxed((1u8..=4, proptest::collection::vec(op(), 1..40)).prop_map(|(limit, ops)| Case { limit, ops })),
                 test,
             ),
